@@ -378,6 +378,10 @@ func corr(seed uint64, n, exh int) {
 	corrSamples(rng, n/2+1)
 	corrWalk(rng, n/2+1)
 	corrMultiMdat(rng, n/2+1)
+	corrFrag(rng, n+10)
+	corrEncodeFile(rng, n/2+2)
+	corrInter(rng, n/3+2)
+	corrSparse(rng, n/4+2)
 }
 
 // ---------------------------------------------------------------- search: the property itself
@@ -467,6 +471,10 @@ func search(seed uint64, n, exh int) {
 	searchFragmented(rng, n/2+1)
 	searchRealFiles(rng, n/4+2, *repoDir)
 	evals += searchMultiMdat(rng, n+50)
+	searchFragRound2(rng, n+20)
+	searchLazyWriter(rng, n/2+5)
+	searchInter(rng, n/2+5)
+	searchSparse(rng, n/4+3)
 	fmt.Fprintf(out, "EVALS\t%d\n", evals)
 }
 
